@@ -438,6 +438,7 @@ pub fn network_case(case: &NCase, obs: &mut Obs) -> Result<(), Fail> {
         let (mut n_crash, mut n_replaced) = (0, 0);
         let mut n_slow_close = 0;
         let mut n_redial_under_call = 0;
+        let mut graveyard: Vec<Node> = Vec::new();
         // checks that hold at every instant: run them after every step without awaiting in between
         fn check_all(nodes: &[Node], subs: &mut Vec<NSub>, generation: &[u32], sub_gen: &[u32], what: &str) -> Result<(), Fail> {
             for (i, node) in nodes.iter().enumerate() {
@@ -484,7 +485,7 @@ pub fn network_case(case: &NCase, obs: &mut Obs) -> Result<(), Fail> {
                     let i = *node as usize % n;
                     n_crash += 1;
                     // crash: from now on nothing from or to the old address is delivered and no close
-                    // is ever sent (the old incarnation is leaked, not dropped)
+                    // is ever sent (the old incarnation stays alive, untouched, until the case ends)
                     sim.fabric.set_blackhole(nodes[i].addr(), true);
                     sleep_ms(*down_ms as u64).await;
                     // restart with the SAME key on a fresh address
@@ -492,7 +493,7 @@ pub fn network_case(case: &NCase, obs: &mut Obs) -> Result<(), Fail> {
                     s.addr = node_addr(40 + n_crash as u8);
                     let fresh = sim.node_with(s)?;
                     let old = std::mem::replace(&mut nodes[i], fresh);
-                    Box::leak(Box::new(old));
+                    graveyard.push(old); // kept alive (never closed) until the case is over
                     generation[i] += 1;
                     let (rx, snap) = nodes[i].net.subscribe().map_err(|e| Fail::Inconclusive(e.to_string()))?;
                     subs.push(NSub { at: i, sub: Sub { rx, snapshot: snap.iter().map(|p| p.0).collect(), events: vec![], lagged: false } });
